@@ -180,7 +180,8 @@ def handlers : List (String × Handler) := [
     let steps : List ChanRead ← stepsJ.toList.mapM (fun sj => do
       let data ← getPairs sj "data"
       match ← getReqs sj "request" with
-      | [q] => pure (⟨data, ← getInt sj "nch", q.rs, q.re, q.cs, q.ce, q.asIdx, ← getBool sj "refuses"⟩ : ChanRead)
+      | [q] => pure (⟨data, ← getInt sj "nch", q.rs, q.re, q.cs, q.ce, q.asIdx, ← getBool sj "refuses",
+                      (match getBool sj "labelmap" with | .ok b => b | .error _ => false)⟩ : ChanRead)
       | _ => throw "request must be a one-element list")
     match tiledSegTable (some 0) (segs.zip ms) R C tr tc full omitE with
     | .error e => pure (Json.mkObj [("err", Json.str e.toString)])
